@@ -18,6 +18,7 @@ import (
 	"strings"
 
 	"golang.org/x/tools/go/packages"
+	"golang.org/x/tools/go/ssa"
 )
 
 // ---------------------------------------------------------------------------------------------
@@ -35,6 +36,60 @@ func tbRepoPkg(c *Ctx, rel string) *packages.Package {
 		return nil
 	}
 	return p
+}
+
+// tbLocalDef looks through a local variable that is defined once (x := e) and never assigned again or
+// address-taken inside body: it returns e. Anything else is returned unchanged.
+func tbLocalDef(p *packages.Package, body ast.Node, e ast.Expr) ast.Expr {
+	for hop := 0; hop < 4; hop++ {
+		id, ok := tbUnparen(e).(*ast.Ident)
+		if !ok || body == nil {
+			return e
+		}
+		v, ok := p.TypesInfo.Uses[id].(*types.Var)
+		if !ok || v.IsField() || v.Parent() == nil || v.Parent() == p.Types.Scope() {
+			return e
+		}
+		var rhs ast.Expr
+		n := 0
+		refers := func(x ast.Expr) bool {
+			xi, ok := tbUnparen(x).(*ast.Ident)
+			return ok && (p.TypesInfo.Defs[xi] == types.Object(v) || p.TypesInfo.Uses[xi] == types.Object(v))
+		}
+		ast.Inspect(body, func(nd ast.Node) bool {
+			switch s := nd.(type) {
+			case *ast.AssignStmt:
+				for i, l := range s.Lhs {
+					if refers(l) {
+						n++
+						if len(s.Rhs) == len(s.Lhs) && s.Tok == token.DEFINE {
+							rhs = s.Rhs[i]
+						} else {
+							n++
+						}
+					}
+				}
+			case *ast.IncDecStmt:
+				if refers(s.X) {
+					n += 2
+				}
+			case *ast.UnaryExpr:
+				if s.Op == token.AND && refers(s.X) {
+					n += 2
+				}
+			case *ast.RangeStmt:
+				if (s.Key != nil && refers(s.Key)) || (s.Value != nil && refers(s.Value)) {
+					n += 2
+				}
+			}
+			return true
+		})
+		if n != 1 || rhs == nil {
+			return e
+		}
+		e = rhs
+	}
+	return e
 }
 
 func tbUnparen(e ast.Expr) ast.Expr {
@@ -826,6 +881,69 @@ func tbC15Tags(c *Ctx, p *packages.Package, attrs, ts *types.Named) {
 		}
 		return true
 	})
+	// the same question asked of the compiled encoder: on every successful return of Marshal the must-facts (which
+	// include those established inside the check it calls, however deeply nested) state field != "" - this does not
+	// depend on which function holds the comparisons
+	if mfn := c.w.Prog.FuncValue(tbMethod(attrs, "Marshal")); mfn != nil && mfn.Blocks != nil {
+		w := c.w
+		mf := w.Facts(mfn)
+		emptyTest := func(l Lit) (string, bool, bool) { // field, "is empty" polarity, ok
+			bin, ok := l.V.(*ssa.BinOp)
+			if !ok || (bin.Op != token.EQL && bin.Op != token.NEQ) {
+				return "", false, false
+			}
+			x, y := bin.X, bin.Y
+			if _, isK := strip(x).(*ssa.Const); isK {
+				x, y = y, x
+			}
+			isEmptyCmp := false
+			if s, isK := strConst(y); isK && s == "" {
+				isEmptyCmp = true
+			} else if k, isK := intConst(y); isK && k == 0 {
+				if la := lenArg(x); la != nil {
+					x, isEmptyCmp = la, true
+				}
+			}
+			if !isEmptyCmp {
+				return "", false, false
+			}
+			ex := w.Expr(x)
+			if !strings.HasPrefix(ex, "p0.") || strings.Contains(ex[3:], ".") || strings.ContainsAny(ex, "(<") {
+				return "", false, false
+			}
+			return ex[3:], (bin.Op == token.EQL) == l.Pol, true
+		}
+		ssaRejects := map[string]bool{}
+		first := true
+		for _, r := range w.MayBeNilReturns(mfn) {
+			if mfn.Recover != nil && r.Block() == mfn.Recover {
+				continue
+			}
+			cur := map[string]bool{}
+			for l := range mf.At(r.Block()) {
+				if f, empty, ok := emptyTest(l); ok && !empty {
+					cur[f] = true
+				}
+			}
+			if first {
+				ssaRejects, first = cur, false
+			} else {
+				for f := range ssaRejects {
+					if !cur[f] {
+						delete(ssaRejects, f)
+					}
+				}
+			}
+		}
+		for f := range ssaRejects {
+			if !rejects[f] {
+				rejects[f], tested[f] = true, true
+				if _, has := posOf[f]; !has {
+					posOf[f] = fd.Pos()
+				}
+			}
+		}
+	}
 	jf := map[string]tbJSONField{}
 	for _, f := range tbJSONFields(attrs) {
 		jf[f.Var.Name()] = f
@@ -1393,8 +1511,9 @@ func tbC15Legacy(c *Ctx, p *packages.Package, attrs *types.Named) {
 		c.Floor(rule, 0, 8, "legacy keys examined on the writer and the reader side")
 		return
 	}
-	w := tbLegacyWrites(c, p, ml)
-	r := tbLegacyReads(c, p, ul, attrs)
+	// both sides are extracted from the compiled functions (c15legacy.go)
+	w := legacyWritesSSA(c, p, c.w.Prog.FuncValue(mlFn))
+	r := legacyReadsSSA(c, p, c.w.Prog.FuncValue(ulFn), attrs)
 	for _, pr := range w.problems {
 		c.Und(rule, "MarshalLegacy|every written argument is understood", c.w.Pos(ml.Pos()), pr)
 	}
@@ -1725,7 +1844,7 @@ func tbYubiModel(c *Ctx, rule string) *tbYubi {
 		if !ok || sw.Tag == nil {
 			return true
 		}
-		ix, ok := tbUnparen(sw.Tag).(*ast.IndexExpr)
+		ix, ok := tbUnparen(tbLocalDef(p, y.serve.Body, sw.Tag)).(*ast.IndexExpr)
 		if !ok {
 			return true
 		}
@@ -2353,6 +2472,7 @@ func tablesC13(c *Ctx) {
 	}
 
 	// ---- (c) the dispatch of ServeAgent ----
+	wire := newWireView(c.w)
 	serverArm := map[string]*tbArm{}
 	dispatched, examined := 0, 0 // examined: extended codes with exactly one arm; dispatched: those whose arm calls the same-named method
 	for _, op := range tbExtendedOps {
@@ -2369,6 +2489,12 @@ func tablesC13(c *Ctx) {
 		}
 		a := arms[0]
 		examined++
+		if len(a.consts) == 1 {
+			// agent methods invoked for this code by helpers the arm calls
+			for mth := range wire.agentMethodsIn(kv) {
+				a.agentCalls[mth] = true
+			}
+		}
 		calls := tbSorted(a.agentCalls)
 		ok := len(calls) == 1 && calls[0] == op && len(a.consts) == 1 && !a.delegates
 		if c.Check(ok, rule, key, c.w.Pos(a.clause.Pos()),
@@ -2446,7 +2572,9 @@ func tablesC13(c *Ctx) {
 		s, ok := sig.Params().At(0).Type().Underlying().(*types.Slice)
 		return ok && tbIsBasic(s.Elem().Underlying(), types.Uint8)
 	}
+	_ = isSend
 	type clientOp struct {
+		ssa   *ssa.Function
 		fd    *ast.FuncDecl
 		first *tbFirst
 		why   string
@@ -2457,18 +2585,27 @@ func tablesC13(c *Ctx) {
 			return nil
 		}
 		op := &clientOp{fd: fd, why: "no request is sent through the connection"}
-		n := 0
-		ast.Inspect(fd.Body, func(nd ast.Node) bool {
-			call, ok := nd.(*ast.CallExpr)
-			if !ok || !isSend(tbCallee(p, call)) || len(call.Args) != 1 {
-				return true
+		// evaluated on the SSA form of the method and of the helpers it calls (c13wire.go)
+		op.ssa = c.w.methodOfNamed(y.client, method)
+		if op.ssa == nil || op.ssa.Blocks == nil {
+			return op
+		}
+		c.w.Focus(op.ssa)
+		req, why := wire.clientRequest(op.ssa)
+		if req == nil {
+			op.why = why
+			return op
+		}
+		wf, why := wire.firstByte(op.ssa, req, 0)
+		if wf == nil {
+			op.why = why
+			return op
+		}
+		op.first = &tbFirst{val: wf.val, how: wf.how, via: wf.via}
+		for _, k := range y.consts {
+			if kv, _ := tbIntVal(k.Val()); kv == wf.val && wf.via == nil {
+				op.first.constO, op.first.how = k, "[]byte{"+k.Name()+",...}"
 			}
-			n++
-			op.first, op.why = tbFirstByte(p, fd.Body, call.Args[0], 0)
-			return true
-		})
-		if n > 1 {
-			op.first, op.why = nil, "more than one request is sent"
 		}
 		return op
 	}
@@ -2495,9 +2632,13 @@ func tablesC13(c *Ctx) {
 		if arm == nil {
 			continue
 		}
-		armNodes := tbBodyNodes(arm.clause)
-		sMar, sUnm := tbSSHCodecTypes(p, armNodes)
-		_, cUnm := tbSSHCodecTypes(p, []ast.Node{co.fd.Body})
+		armCode := arm.consts[0].val
+		inThisArm := func(cv *ssa.Call) bool { return wire.inArm(cv, armCode) }
+		sMar, sUnm := wire.codecTypes(wire.serve, inThisArm)
+		var cUnm []*types.Named
+		if co.ssa != nil {
+			_, cUnm = wire.codecTypes(co.ssa, func(*ssa.Call) bool { return true })
+		}
 		// response layout
 		rkey := opName + "|response struct layout identical on both sides"
 		switch {
@@ -2524,7 +2665,10 @@ func tablesC13(c *Ctx) {
 			}
 		}
 		// success literal
-		sl, cl := tbWrittenLits(p, armNodes), tbComparedLits(p, co.fd.Body)
+		sl, cl := wire.writtenLits(wire.serve, inThisArm), map[string]bool{}
+		if co.ssa != nil {
+			cl = wire.comparedLits(co.ssa)
+		}
 		for s := range sl {
 			allServer[s] = true
 		}
@@ -2593,14 +2737,66 @@ func tablesC14(c *Ctx) {
 		c.Unresolved(rule, "type common.NamespacePolicy")
 		return
 	}
-	table := tbOnlyVar(c, rule, "package-level map[NamespacePolicy]struct{} of common", cp, func(t types.Type) bool {
+	isPolicySet := func(t types.Type) bool {
 		m, ok := t.(*types.Map)
 		if !ok || !types.Identical(m.Key(), pol) {
 			return false
 		}
 		st, ok := m.Elem().(*types.Struct)
 		return ok && st.NumFields() == 0
-	})
+	}
+	var table *types.Var
+	if vs := tbPkgVars(cp, isPolicySet); len(vs) == 0 {
+		// no policy table: the validity predicate itself enumerates the policies (e.g. a switch). It is run on every
+		// string constant it compares with and on a string equal to none of them.
+		vf := c.w.Func("common", "ValidNamespacePolicy")
+		if vf == nil || vf.Blocks == nil {
+			c.Unresolved(rule, "function common.ValidNamespacePolicy")
+		} else {
+			c.Saw(vf)
+			names := map[string]string{}
+			for n, v := range constDecls(cp, pol.Obj().Name()) {
+				if v.Kind() == constant.String {
+					names[constant.StringVal(v)] = n
+				}
+			}
+			have := map[string]string{}
+			for _, k := range comparedStrings(vf) {
+				acc, ok := evalStringPredicate(c.w, vf, k, false)
+				if !ok {
+					c.Und(rule, "ValidNamespacePolicy|interpretable", c.w.FnPos(vf), "the predicate is neither a lookup in a policy table nor a chain of comparisons of its parameter with constants")
+					continue
+				}
+				if !acc {
+					continue
+				}
+				nEntries++
+				name := names[k]
+				if name == "" {
+					name = strconv.Quote(k)
+				}
+				have[name] = k
+				want, known := tbPolicyReference[name]
+				c.Check(known && want == k, rule, "policy set entry "+name+"|one of the two reference policies", c.w.FnPos(vf),
+					fmt.Sprintf("%s = %q", name, k),
+					fmt.Sprintf("the predicate accepts %s = %q, which is not one of NoNamespace=\"NONS\" / NamespaceOK=\"NSOK\": an additional force-command token would be accepted", name, k))
+			}
+			for _, name := range []string{"NoNamespace", "NamespaceOK"} {
+				val, ok := have[name]
+				c.Check(ok && val == tbPolicyReference[name], rule, "policy set|contains "+name+"="+strconv.Quote(tbPolicyReference[name]), c.w.FnPos(vf),
+					"accepted", fmt.Sprintf("the predicate does not accept %s = %q (accepts %v): a legitimate force command is rejected", name, tbPolicyReference[name], have))
+			}
+			acc, ok := evalStringPredicate(c.w, vf, "", true)
+			c.Check(ok && !acc, rule, "ValidNamespacePolicy|is the comma-ok lookup in the policy table", c.w.FnPos(vf), "any other string is rejected", "the predicate accepts (or cannot be shown to reject) a string that is none of the policies it names")
+			for n, v := range constDecls(cp, pol.Obj().Name()) {
+				if _, ok := tbPolicyReference[n]; !ok {
+					c.Bad(rule, "policy constant "+n+"|one of the two reference policies", c.w.Pos(cp.Types.Scope().Lookup(n).Pos()), fmt.Sprintf("unexpected NamespacePolicy constant %s = %s", n, v.ExactString()))
+				}
+			}
+		}
+	} else {
+		table = tbOnlyVar(c, rule, "package-level map[NamespacePolicy]struct{} of common", cp, isPolicySet)
+	}
 	if table != nil {
 		entries, ok := mapLit(cp, tbVarInit(cp, table))
 		if !ok {
@@ -2710,168 +2906,105 @@ func tablesC14(c *Ctx) {
 		c.Unresolved(rule, "csr function func([]string) (common.NamespacePolicy, string, error) (parseForceCommand)")
 		return
 	}
-	// l := len(args)
-	var lVar, sVar types.Object
-	lStmt := -1
-	nLen := 0
-	for i, st := range fd.Body.List {
-		as, ok := st.(*ast.AssignStmt)
-		if !ok || len(as.Lhs) != 1 || len(as.Rhs) != 1 {
-			continue
-		}
-		call, ok := tbUnparen(as.Rhs[0]).(*ast.CallExpr)
-		if !ok || !tbIsBuiltin(sp, call, "len") || len(call.Args) != 1 {
-			continue
-		}
-		if o, ok := tbObj(sp, call.Args[0]).(*types.Var); ok {
-			if _, isSlice := o.Type().Underlying().(*types.Slice); isSlice {
-				lVar, sVar, lStmt = tbObj(sp, as.Lhs[0]), o, i
-				nLen++
-			}
-		}
-	}
-	if nLen != 1 || lVar == nil {
-		c.Unresolved(rule, fmt.Sprintf("the statement `l := len(args)` of %s (found %d)", pfc.Name(), nLen))
+	// evaluated on the SSA form: on every successful return the must-facts bound len(args) to [3,6] and the two
+	// results are the last-but-one and the last element of that same slice
+	pf := c.w.Prog.FuncValue(pfc)
+	if pf == nil || pf.Blocks == nil {
+		c.Unresolved(rule, "SSA form of "+pfc.Name())
 		return
 	}
-	// neither l nor args is assigned after that statement
-	reassigned := ""
-	for _, st := range fd.Body.List[lStmt+1:] {
-		ast.Inspect(st, func(n ast.Node) bool {
-			switch x := n.(type) {
-			case *ast.AssignStmt:
-				for _, l := range x.Lhs {
-					if o := tbObj(sp, l); o == lVar || o == types.Object(sVar) {
-						reassigned = o.Name()
-					}
-				}
-			case *ast.IncDecStmt:
-				if o := tbObj(sp, x.X); o == lVar {
-					reassigned = o.Name()
-				}
-			}
-			return true
-		})
+	w := c.w
+	c.Saw(pf)
+	ff := w.Facts(pf)
+	// elemAt: v denotes X[len(X)-k] for a slice value X; returns X and k
+	elemAt := func(v ssa.Value) (ssa.Value, int64, bool) {
+		ld, ok := w.canon(pf, v).(*ssa.UnOp)
+		if !ok || ld.Op != token.MUL {
+			return nil, 0, false
+		}
+		ia, ok := ld.X.(*ssa.IndexAddr)
+		if !ok {
+			return nil, 0, false
+		}
+		sub, ok := w.canon(pf, ia.Index).(*ssa.BinOp)
+		if !ok || sub.Op != token.SUB {
+			return nil, 0, false
+		}
+		k, isK := intConst(sub.Y)
+		la := lenArg(w.canon(pf, sub.X))
+		if !isK || la == nil || w.canon(pf, la) != w.canon(pf, ia.X) {
+			return nil, 0, false
+		}
+		return w.canon(pf, ia.X), k, true
 	}
-	c.Check(reassigned == "", rule, pfc.Name()+"|length variable and slice unchanged after l := len(args)", c.w.Pos(fd.Pos()),
-		fmt.Sprintf("%s and %s are not assigned after %s := len(%s)", lVar.Name(), sVar.Name(), lVar.Name(), sVar.Name()),
-		reassigned+" is assigned after the length was taken: the guards no longer describe the slice that is indexed")
-
-	// guards: top-level if / else-if chains comparing l with a constant and returning an error
-	minLen, maxLen := int64(-1), int64(-1) // accepted range: minLen <= l <= maxLen
-	var minPos, maxPos token.Pos
-	guardStmt := map[string]int{}
-	var visitIf func(ifs *ast.IfStmt, idx int)
-	visitIf = func(ifs *ast.IfStmt, idx int) {
-		if be, ok := tbUnparen(ifs.Cond).(*ast.BinaryExpr); ok {
-			op, x, yv := be.Op, be.X, be.Y
-			if _, isConst := tbConstInt(sp, x); isConst {
-				x, yv = yv, x
-				op = map[token.Token]token.Token{token.LSS: token.GTR, token.GTR: token.LSS, token.LEQ: token.GEQ, token.GEQ: token.LEQ}[op]
+	nSucc := 0
+	for _, r := range w.MayBeNilReturns(pf) {
+		if pf.Recover != nil && r.Block() == pf.Recover {
+			continue
+		}
+		nSucc++
+		pos := w.Pos(r.Pos())
+		xs, kH, okH := elemAt(r.Results[1])
+		xp, kP, okP := elemAt(r.Results[0])
+		c.Check(okH && kH == 1, rule, pfc.Name()+"|handler token is args[l-1]", pos, "the handler name is args[len(args)-1]",
+			fmt.Sprintf("the handler name returned is not the last token (args[len(args)-1]): %s", w.Short(r.Results[1])))
+		c.Check(okP && kP == 2, rule, pfc.Name()+"|policy token is args[l-2]", pos, "NamespacePolicy(args[len(args)-2])",
+			fmt.Sprintf("the namespace policy returned is not the last-but-one token (args[len(args)-2]): %s", w.Short(r.Results[0])))
+		c.Check(okH && okP && xs == xp, rule, pfc.Name()+"|length variable and slice unchanged after l := len(args)", pos,
+			"both tokens are taken from one slice value, indexed relative to its own length", "the two tokens are not taken from the same slice value / its own length")
+		// the accepted length range at this return
+		minLen, maxLen := int64(-1), int64(1<<40)
+		for l := range ff.At(r.Block()) {
+			bin, ok := l.V.(*ssa.BinOp)
+			if !ok {
+				continue
 			}
-			k, isConst := tbConstInt(sp, yv)
-			rejects := false
-			if len(ifs.Body.List) > 0 {
-				if ret, ok := ifs.Body.List[len(ifs.Body.List)-1].(*ast.ReturnStmt); ok && len(ret.Results) == 3 && !tbIsNilIdent(sp, ret.Results[2]) {
-					rejects = true
-				}
+			op, x, y := bin.Op, bin.X, bin.Y
+			if _, isK := intConst(x); isK {
+				x, y = y, x
+				op = map[token.Token]token.Token{token.LSS: token.GTR, token.GTR: token.LSS, token.LEQ: token.GEQ, token.GEQ: token.LEQ, token.EQL: token.EQL, token.NEQ: token.NEQ}[op]
 			}
-			if isConst && rejects && tbObj(sp, x) == lVar {
-				switch op {
-				case token.LSS: // l < k rejected: l >= k accepted
-					minLen, minPos, guardStmt["min"] = k, be.Pos(), idx
-				case token.LEQ:
-					minLen, minPos, guardStmt["min"] = k+1, be.Pos(), idx
-				case token.GTR: // l > k rejected: l <= k accepted
-					maxLen, maxPos, guardStmt["max"] = k, be.Pos(), idx
-				case token.GEQ:
-					maxLen, maxPos, guardStmt["max"] = k-1, be.Pos(), idx
+			k, isK := intConst(y)
+			la := lenArg(w.canon(pf, x))
+			if !isK || la == nil || xs == nil || w.canon(pf, la) != xs {
+				continue
+			}
+			if !l.Pol { // negate
+				op = map[token.Token]token.Token{token.LSS: token.GEQ, token.GEQ: token.LSS, token.GTR: token.LEQ, token.LEQ: token.GTR, token.EQL: token.NEQ, token.NEQ: token.EQL}[op]
+			}
+			switch op {
+			case token.GEQ:
+				if k > minLen {
+					minLen = k
 				}
+			case token.GTR:
+				if k+1 > minLen {
+					minLen = k + 1
+				}
+			case token.LEQ:
+				if k < maxLen {
+					maxLen = k
+				}
+			case token.LSS:
+				if k-1 < maxLen {
+					maxLen = k - 1
+				}
+			case token.EQL:
+				minLen, maxLen = k, k
 			}
 		}
-		if e, ok := ifs.Else.(*ast.IfStmt); ok {
-			visitIf(e, idx)
+		if minLen < 0 {
+			c.Bad(rule, pfc.Name()+"|lower length guard rejects l < 3", pos, "no lower bound on len(args) holds on this successful return")
+		} else {
+			c.Check(minLen == 3, rule, pfc.Name()+"|lower length guard rejects l < 3", pos,
+				"an argument list shorter than 3 tokens is an error", fmt.Sprintf("success is possible for len(args) >= %d, expected 3 (gensign, policy, handler)", minLen))
+		}
+		if maxLen >= 1<<40 {
+			c.Bad(rule, pfc.Name()+"|upper length guard rejects l > 6", pos, "no upper bound on len(args) holds on this successful return")
+		} else {
+			c.Check(maxLen == 6, rule, pfc.Name()+"|upper length guard rejects l > 6", pos,
+				"an argument list longer than 6 tokens is an error", fmt.Sprintf("success is possible for len(args) <= %d, expected 6", maxLen))
 		}
 	}
-	for i, st := range fd.Body.List {
-		if ifs, ok := st.(*ast.IfStmt); ok && i > lStmt && ifs.Init == nil {
-			visitIf(ifs, i)
-		}
-	}
-	if minLen < 0 {
-		c.Bad(rule, pfc.Name()+"|lower length guard rejects l < 3", c.w.Pos(fd.Pos()), fmt.Sprintf("no top-level `if %s < N { return ..., err }` guard found", lVar.Name()))
-	} else {
-		c.Check(minLen == 3, rule, pfc.Name()+"|lower length guard rejects l < 3", c.w.Pos(minPos),
-			"an argument list shorter than 3 tokens is an error", fmt.Sprintf("the guard accepts %s >= %d, expected 3 (gensign, policy, handler)", lVar.Name(), minLen))
-	}
-	if maxLen < 0 {
-		c.Bad(rule, pfc.Name()+"|upper length guard rejects l > 6", c.w.Pos(fd.Pos()), fmt.Sprintf("no top-level `if %s > N { return ..., err }` guard found", lVar.Name()))
-	} else {
-		c.Check(maxLen == 6, rule, pfc.Name()+"|upper length guard rejects l > 6", c.w.Pos(maxPos),
-			"an argument list longer than 6 tokens is an error", fmt.Sprintf("the guard accepts %s <= %d, expected 6", lVar.Name(), maxLen))
-	}
-
-	// index expressions args[l-k]
-	type idxUse struct {
-		k    int64
-		stmt int
-		pos  token.Pos
-	}
-	offsetOf := func(e ast.Expr) (int64, bool) { // e == args[l-k]
-		ix, ok := tbUnparen(e).(*ast.IndexExpr)
-		if !ok || tbObj(sp, ix.X) != types.Object(sVar) {
-			return 0, false
-		}
-		be, ok := tbUnparen(ix.Index).(*ast.BinaryExpr)
-		if !ok || be.Op != token.SUB || tbObj(sp, be.X) != lVar {
-			return 0, false
-		}
-		return tbConstInt(sp, be.Y)
-	}
-	var policyUse, handlerUse *idxUse
-	nPolicy, nHandler, nOther := 0, 0, 0
-	for i, st := range fd.Body.List {
-		ast.Inspect(st, func(n ast.Node) bool {
-			switch x := n.(type) {
-			case *ast.CallExpr: // common.NamespacePolicy(args[l-k])
-				if tbIsConversion(sp, x) && types.Identical(sp.TypesInfo.TypeOf(x), pol) {
-					if k, ok := offsetOf(x.Args[0]); ok {
-						policyUse = &idxUse{k, i, x.Pos()}
-						nPolicy++
-					} else {
-						nOther++
-					}
-				}
-			case *ast.ReturnStmt: // return policy, args[l-k], nil
-				if len(x.Results) == 3 && tbIsNilIdent(sp, x.Results[2]) {
-					if k, ok := offsetOf(x.Results[1]); ok {
-						handlerUse = &idxUse{k, i, x.Results[1].Pos()}
-						nHandler++
-					} else {
-						nOther++
-					}
-				}
-			}
-			return true
-		})
-	}
-	after := func(u *idxUse) bool {
-		gi, ok1 := guardStmt["min"]
-		gj, ok2 := guardStmt["max"]
-		return ok1 && ok2 && u.stmt > gi && u.stmt > gj
-	}
-	if policyUse == nil || nPolicy != 1 {
-		c.Bad(rule, pfc.Name()+"|policy token is args[l-2]", c.w.Pos(fd.Pos()), fmt.Sprintf("expected exactly one conversion NamespacePolicy(%s[%s-k]); found %d (and %d conversions/returns of another shape)", sVar.Name(), lVar.Name(), nPolicy, nOther))
-	} else {
-		c.Check(policyUse.k == 2 && after(policyUse), rule, pfc.Name()+"|policy token is args[l-2]", c.w.Pos(policyUse.pos),
-			fmt.Sprintf("NamespacePolicy(%s[%s-2]) after both length guards", sVar.Name(), lVar.Name()),
-			fmt.Sprintf("the namespace policy is taken from %s[%s-%d] (after both length guards: %v); expected the last-but-one token", sVar.Name(), lVar.Name(), policyUse.k, after(policyUse)))
-	}
-	if handlerUse == nil || nHandler != 1 {
-		c.Bad(rule, pfc.Name()+"|handler token is args[l-1]", c.w.Pos(fd.Pos()), fmt.Sprintf("expected exactly one successful return whose second result is %s[%s-k]; found %d", sVar.Name(), lVar.Name(), nHandler))
-	} else {
-		c.Check(handlerUse.k == 1 && after(handlerUse), rule, pfc.Name()+"|handler token is args[l-1]", c.w.Pos(handlerUse.pos),
-			fmt.Sprintf("the handler name is %s[%s-1] after both length guards", sVar.Name(), lVar.Name()),
-			fmt.Sprintf("the handler name is taken from %s[%s-%d] (after both length guards: %v); expected the last token", sVar.Name(), lVar.Name(), handlerUse.k, after(handlerUse)))
-	}
+	c.Floor(rule, nSucc, 1, "successful return of "+pfc.Name())
 }
